@@ -175,6 +175,18 @@ Theorem C16_styles_agree : forall cfg,
      eval_literal cfg (spell_verbatim s) = Some (VText s)).
 Proof. exact (fun cfg Q1 Q2 Q3 => conj (quoted_styles_agree cfg Q1 Q2) (styles_agree cfg Q1 Q2 Q3)). Qed.
 
+(* a variable reference: `$` followed by word characters of any kind (digits with leading
+   zeros, digits of any script, letters) is one DOLLAR token whose value - the name the
+   grammar wraps into GetContextValue - is exactly that text *)
+Theorem C16_variable_name : forall cfg w, memz 36 (ignore cfg) = false -> forallb (is_w cfg) w = true ->
+  lex cfg (36 :: w) = ([mkTok K_DOLLAR 0 (S (length w)) (VText (36 :: w))], EndOk) /\
+  literal_obs cfg (36 :: w) = LVar (VText (36 :: w)) \/ is_literal_kind cfg K_DOLLAR = true.
+Proof.
+  intros cfg w Ig All. destruct (is_literal_kind cfg K_DOLLAR) eqn:E; [right; reflexivity|left].
+  split; [exact (dollar_name cfg w Ig All)|]. unfold literal_obs. rewrite (dollar_name cfg w Ig All). cbn [tk_kind tk_val].
+  rewrite E. reflexivity.
+Qed.
+
 (* ---- the statements are not vacuous ---- *)
 (* the dot is not a digit in the current tree (premise of C16_decimal_value) *)
 Example dot_is_not_a_digit : is_d (default_cfg (fun _ => None)) 46 = false.
